@@ -96,19 +96,23 @@ func (e *Engine) registerIOExterns(reg regFn) {
 			var target *Addr
 			var n int
 			var tt types.Type
+			inMem := isDynOf(r, "*bytes.Reader")
 			if data.Dyn != nil && data.Payload != nil {
 				if p, ok := data.Dyn.Underlying().(*types.Pointer); ok {
+					if isByteSlice(p.Elem()) {
+						// binary.Read(r, order, *[]byte) fills the slice the pointer refers to, like io.ReadFull
+						a := x.addrOf(st, fr, *data.Payload, pos, "binary.Read")
+						sl := st.load(a)
+						return x.readFull(st, r, sl, inMem, true)
+					}
 					n = intKindSize(p.Elem())
 					tt = p.Elem()
-					if data.Payload.Addr != nil {
-						target = data.Payload.Addr
-					} else {
-						target = &Addr{Kind: AObj, Loc: data.Payload.T, RootTy: p.Elem()}
+					if n > 0 {
+						target = x.addrOf(st, fr, *data.Payload, pos, "binary.Read")
 					}
 				}
 			}
 			if n == 0 {
-				// unsupported target (e.g. []byte): arbitrary effect
 				x.fail(st, "binary.Read", "target type not modelled")
 				return nil
 			}
@@ -117,16 +121,27 @@ func (e *Engine) registerIOExterns(reg regFn) {
 			s2.note("binary.Read fails")
 			k := s2.freshSort("k", "Int")
 			s2.assume(and("(<= 0 "+k+")", "(<= "+k+" (blen "+R+"))"))
-			s2.assume(or("(< (blen "+R+") "+fmt.Sprint(n)+")", "true")) // an I/O error may strike even if enough bytes would have come
+			if inMem {
+				// an in-memory reader fails only for lack of input, and then consumes what is left
+				s2.assumePC("(< (blen " + R + ") " + fmt.Sprint(n) + ")")
+				s2.assume("(= " + k + " (blen " + R + "))")
+			}
 			s2.ghostWrite(g, ref, "(bdrop "+R+" "+k+")")
-			fv := s2.fresh("partial", tt)
-			s2.store(target, fv)
-			out2 := callOut{st: s2, val: anyError(s2, errT)}
+			if !inMem {
+				fv := s2.fresh("partial", tt)
+				s2.store(target, fv)
+			}
+			out2 := callOut{st: s2, val: x.eofError(s2, errT, inMem, "(= (blen "+R+") 0)")}
+			if inMem {
+				st.assumePC(fmt.Sprintf("(>= (blen %s) %d)", R, n))
+			}
 			// success
 			st.note("binary.Read succeeds")
 			st.assume(fmt.Sprintf("(>= (blen %s) %d)", R, n))
 			st.store(target, Val{T: fmt.Sprintf("(dec%d (btake %s %d))", n, R, n), Ty: tt})
-			st.ghostWrite(g, ref, fmt.Sprintf("(bdrop %s %d)", R, n))
+			R2 := st.name("R", "Bytes", fmt.Sprintf("(bdrop %s %d)", R, n))
+			st.assume(fmt.Sprintf("(= (blen %s) (- (blen %s) %d))", R2, R, n)) // implied (blen_drop); stated to spare the solver the chain
+			st.ghostWrite(g, ref, R2)
 			return []callOut{{st: st, val: nilError(errT)}, out2}
 		}, "gh:rem", "gh:$iofail")
 
@@ -135,29 +150,7 @@ func (e *Engine) registerIOExterns(reg regFn) {
 			e := x.e
 			e.needBytes()
 			st.groups["bytes"] = true
-			r, p := args[0], args[1]
-			g := st.ghost("rem")
-			ref := refOf(st, r)
-			R := st.name("R", "Bytes", st.ghostRead(g, ref))
-			ln := "(s_len " + p.T + ")"
-			// failure
-			s2 := st.clone()
-			s2.note("io.ReadFull fails")
-			k := s2.freshSort("k", "Int")
-			s2.assume(and("(<= 0 "+k+")", "(< "+k+" "+ln+")", "(<= "+k+" (blen "+R+"))"))
-			junk := s2.freshSort("junk", "Bytes")
-			s2.assume("(= (blen " + junk + ") " + ln + ")")
-			s2.writeWindow(p.T, junk)
-			c2 := s2.freshSort("c", "Int")
-			s2.assume(and("(<= "+k+" "+c2+")", "(<= "+c2+" (blen "+R+"))"))
-			s2.ghostWrite(g, ref, "(bdrop "+R+" "+c2+")")
-			out2 := callOut{st: s2, val: Val{Tuple: []Val{{T: k, Ty: intT}, anyError(s2, errT)}}}
-			// success
-			st.note("io.ReadFull succeeds")
-			st.assume("(>= (blen " + R + ") " + ln + ")")
-			st.writeWindow(p.T, "(btake "+R+" "+ln+")")
-			st.ghostWrite(g, ref, "(bdrop "+R+" "+ln+")")
-			return []callOut{{st: st, val: Val{Tuple: []Val{{T: ln, Ty: intT}, nilError(errT)}}}, out2}
+			return x.readFull(st, args[0], args[1], isDynOf(args[0], "*bytes.Reader"), false)
 		}, "gh:rem", "E:uint8", "gh:$iofail")
 
 	reg("io.CopyN", "io.CopyN(io.Discard, r, n): if at least n bytes remain: consumes exactly n bytes, returns (n, nil); otherwise (or on an I/O error) (k < n, err != nil)",
@@ -194,28 +187,43 @@ func (e *Engine) registerIOExterns(reg regFn) {
 			ref := refOf(st, w)
 			O := st.name("O", "Bytes", st.ghostRead(g, ref))
 			n := 0
-			var v string
+			var v, enc, encLen string
 			if data.Dyn != nil && data.Payload != nil {
 				if nn := intKindSize(data.Dyn); nn > 0 {
 					n = nn
 					v = data.Payload.T
+				} else if p, ok := data.Dyn.Underlying().(*types.Pointer); ok && intKindSize(p.Elem()) > 0 {
+					// pointer to a fixed-size integer: the pointee is written
+					a := x.addrOf(st, fr, *data.Payload, pos, "binary.Write")
+					n = intKindSize(p.Elem())
+					v = st.load(a).T
+				} else if isByteSlice(data.Dyn) {
+					enc = st.name("W", "Bytes", st.window(data.Payload.T))
+					encLen = "(s_len " + data.Payload.T + ")"
 				}
 			}
-			if n == 0 {
+			if n > 0 {
+				enc, encLen = fmt.Sprintf("(le%d %s)", n, v), fmt.Sprint(n)
+			}
+			if enc == "" {
 				x.fail(st, "binary.Write", "value type not modelled")
 				return nil
 			}
-			s2 := st.clone()
-			s2.note("binary.Write fails")
-			junk := s2.freshSort("junk", "Bytes")
-			s2.assume(fmt.Sprintf("(< (blen %s) %d)", junk, n))
-			s2.ghostWrite(g, ref, "(bcat "+O+" "+junk+")")
-			x.event(s2, "write-fail")
-			out2 := callOut{st: s2, val: anyError(s2, errT)}
+			var outs []callOut
+			if !isDynOf(w, "*bytes.Buffer") {
+				// writes to an in-memory buffer cannot fail
+				s2 := st.clone()
+				s2.note("binary.Write fails")
+				junk := s2.freshSort("junk", "Bytes")
+				s2.assume(fmt.Sprintf("(< (blen %s) %s)", junk, encLen))
+				s2.ghostWrite(g, ref, "(bcat "+O+" "+junk+")")
+				x.event(s2, "write-fail")
+				outs = append(outs, callOut{st: s2, val: anyError(s2, errT)})
+			}
 			st.note("binary.Write succeeds")
-			st.ghostWrite(g, ref, fmt.Sprintf("(bcat %s (le%d %s))", O, n, v))
-			x.event(st, "write", fmt.Sprintf("(le%d %s)", n, v))
-			return []callOut{{st: st, val: nilError(errT)}, out2}
+			st.ghostWrite(g, ref, "(bcat "+O+" "+enc+")")
+			x.event(st, "write", enc)
+			return append([]callOut{{st: st, val: nilError(errT)}}, outs...)
 		}, "gh:out", "gh:$iofail")
 
 	reg("invoke:io.Writer.Write", "w.Write(p): appends p's bytes to the writer's output and returns (len(p), nil); or returns (k <= len(p), err != nil); or (for writers violating the io.Writer contract) (k < len(p), nil) having written k bytes",
@@ -316,7 +324,7 @@ func (e *Engine) registerIOExterns(reg regFn) {
 	pureFresh := func(x *Exec, st *State, fr *frame, c *ssa.CallCommon, args []Val, pos token.Pos) []callOut {
 		return one(st, st.fresh("ext", c.Signature().Results()))
 	}
-	for _, n := range []string{"invoke:context.Context.Deadline", "invoke:context.Context.Value", "time.Now", "time.(Time).Add", "time.Unix", "time.(Time).UTC", "time.(Time).Unix",
+	for _, n := range []string{"invoke:context.Context.Deadline", "invoke:context.Context.Value", "time.Now", "time.(Time).Add",
 		"invoke:net.Conn.SetReadDeadline", "invoke:net.Conn.SetWriteDeadline", "invoke:net.Conn.SetDeadline", "invoke:net.Conn.RemoteAddr", "invoke:net.Conn.LocalAddr",
 		"invoke:net.Error.Timeout", "invoke:net.Error.Temporary"} {
 		reg(n, "no effect on modelled state; arbitrary result", pureFresh)
@@ -333,4 +341,64 @@ func (st *State) markIOFail() {
 func (e *Engine) errText(st *State, v Val) Val {
 	e.d.add("errtext", "(declare-fun errtext (Iface) Str)")
 	return Val{T: "(errtext " + v.T + ")", Ty: types.Typ[types.String]}
+}
+
+// readFull models io.ReadFull(r, p) and binary.Read(r, order, []byte / *[]byte) (errOnly: only the error is returned).
+func (x *Exec) readFull(st *State, r, p Val, inMem, errOnly bool) []callOut {
+	e := x.e
+	e.needBytes()
+	st.groups["bytes"] = true
+	errT := types.Universe.Lookup("error").Type()
+	intT := types.Typ[types.Int]
+	g := st.ghost("rem")
+	ref := refOf(st, r)
+	R := st.name("R", "Bytes", st.ghostRead(g, ref))
+	ln := "(s_len " + p.T + ")"
+	mk := func(s *State, n string, err Val) Val {
+		if errOnly {
+			return err
+		}
+		return Val{Tuple: []Val{{T: n, Ty: intT}, err}}
+	}
+	// failure
+	s2 := st.clone()
+	s2.note("read fails")
+	k := s2.freshSort("k", "Int")
+	s2.assume(and("(<= 0 "+k+")", "(< "+k+" "+ln+")", "(<= "+k+" (blen "+R+"))"))
+	junk := s2.freshSort("junk", "Bytes")
+	s2.assume("(= (blen " + junk + ") " + ln + ")")
+	c2 := s2.freshSort("c", "Int")
+	s2.assume(and("(<= "+k+" "+c2+")", "(<= "+c2+" (blen "+R+"))"))
+	if inMem {
+		s2.assumePC("(< (blen " + R + ") " + ln + ")")
+		s2.assume(and("(= "+k+" (blen "+R+"))", "(= "+c2+" (blen "+R+"))", "(= (btake "+junk+" "+k+") "+R+")"))
+	}
+	s2.writeWindow(p.T, junk)
+	s2.ghostWrite(g, ref, "(bdrop "+R+" "+c2+")")
+	out2 := callOut{st: s2, val: mk(s2, k, x.eofError(s2, errT, inMem, "(= (blen "+R+") 0)"))}
+	// success
+	st.note("read succeeds")
+	if inMem {
+		st.assumePC("(>= (blen " + R + ") " + ln + ")")
+	} else {
+		st.assume("(>= (blen " + R + ") " + ln + ")")
+	}
+	st.writeWindow(p.T, "(btake "+R+" "+ln+")")
+	R2 := st.name("R", "Bytes", "(bdrop "+R+" "+ln+")")
+	st.assume("(= (blen " + R2 + ") (- (blen " + R + ") " + ln + "))") // implied (blen_drop)
+	st.ghostWrite(g, ref, R2)
+	return []callOut{{st: st, val: mk(st, ln, nilError(errT))}, out2}
+}
+
+// eofError: the error of a failed read. In-memory readers fail with io.EOF (nothing left) or io.ErrUnexpectedEOF.
+func (x *Exec) eofError(st *State, t types.Type, inMem bool, nothingLeft string) Val {
+	if !inMem {
+		return anyError(st, t)
+	}
+	v := st.fresh("eoferr", t)
+	eof := x.e.ioErrGlobal(st, "EOF")
+	ueof := x.e.ioErrGlobal(st, "ErrUnexpectedEOF")
+	st.assume(ite(nothingLeft, eq(v.T, eof), eq(v.T, ueof)))
+	st.markIOFail()
+	return v
 }
